@@ -160,6 +160,8 @@ class SchemaGen:
 
     def mapobj(self):
         rng = self.rng
+        if self.allow_refs and self.defs and rng.random() < 0.4:
+            return {"type": "object", "additionalProperties": {"$ref": "#/$defs/" + rng.choice(sorted(self.defs))}}
         return {"type": "object", "additionalProperties": rng.choice([{"type": "string"}, {"type": "number"}, {"type": "boolean"}, {"type": "integer"}])}
 
     # ---- a property: kind x position
@@ -207,7 +209,7 @@ class SchemaGen:
             s = {}
         pos = rng.choice(["required", "optional", "optional", "nullable", "default"])
         required = pos == "required"
-        if pos == "nullable" and self.allow_nullable and k in ("string", "integer", "number", "boolean", "array", "format"):
+        if pos == "nullable" and self.allow_nullable and k in ("string", "integer", "number", "boolean", "array"):     # not "format": D6
             s = dict(s)
             s["type"] = [s["type"], "null"]
             required = rng.random() < 0.4
